@@ -26,7 +26,8 @@ META = {
     'note': 'Trusted: Coq kernel + vm_compute; the translation of a live run into model events (c17_util.hs_events, from a '
             'reference run of a separately instrumented endpoint); FSock transport semantics (persistent failures; buffered '
             'input stays readable); one-record-per-socket-write (no partial sends in the data scripts); recordSize >= 2.  '
-            'Two theorems are _refuted by model witnesses that replay on the code (known findings).',
+            'The two statements that were _refuted on the original tree (swallowed send failure, write after orderly close) '
+            'are full theorems since the fixes 0ab9df1 and 8b57b65 in /repo.',
     'technique': 'Rocq/Coq proof over hand-written state machine + live correspondence (vm_compute) + direct property oracle',
 }
 IMPORTS = ['Model.C17_Lifecycle', 'Model.C17_Check']
